@@ -384,3 +384,60 @@ impl Family for FCallMain {
         root
     }
 }
+
+/// Two call sites in one program whose (calling module path, called name) pairs read the same once
+/// the segments are written one after the other without a separator: root calling `abf`, module `a`
+/// calling `bf`, module `a.b` calling `f`, module `ab` calling `f` (and a few that do not collide).
+/// Every ordered pair of call sites, static and through a function value. Each must reach the
+/// function its own module's lookup designates (or fail to compile on its own account) whatever the
+/// other call site is.
+pub struct FConcat;
+
+impl FConcat {
+    /// (module path of the call site, called name)
+    const SITES: [(&'static str, &'static str); 9] = [("", "abf"), ("a", "bf"), ("a", "f"), ("a", "b.f"), ("a.b", "f"), ("ab", "f"), ("ab", "bf"), ("a.b", "bf"), ("", "ab.f")];
+}
+
+impl Family for FConcat {
+    fn name(&self) -> &'static str {
+        "F-concat"
+    }
+    fn len(&self) -> u64 {
+        (Self::SITES.len() * Self::SITES.len() * 2) as u64
+    }
+    fn case(&self, idx: u64) -> Module {
+        let n = Self::SITES.len() as u64;
+        let first = Self::SITES[(idx % n) as usize];
+        let second = Self::SITES[((idx / n) % n) as usize];
+        let dynamic = idx / (n * n) == 1;
+        let mut ab2 = Module::default(); // a.b
+        ab2.functions.push(("f".into(), tagged("a.b.f")));
+        let mut a = Module::default();
+        a.functions.push(("f".into(), tagged("a.f")));
+        a.functions.push(("bf".into(), tagged("a.bf")));
+        let mut ab = Module::default(); // the sibling called `ab`
+        ab.functions.push(("f".into(), tagged("ab.f")));
+        ab.functions.push(("bf".into(), tagged("ab.bf")));
+        let mut root = Module::default();
+        let mut main_cards = Vec::new();
+        for (k, (site, name)) in [first, second].into_iter().enumerate() {
+            let the_call = if dynamic { C::DynCall(b(C::Function(name.to_string())), vec![]) } else { call(name, vec![]) };
+            let cname = format!("c{k}");
+            let caller = func(&[], vec![C::Return(b(the_call))]);
+            let full = if site.is_empty() { cname.clone() } else { format!("{site}.{cname}") };
+            match site {
+                "" => root.functions.push((cname, caller)),
+                "a" => a.functions.push((cname, caller)),
+                "a.b" => ab2.functions.push((cname, caller)),
+                _ => ab.functions.push((cname, caller)),
+            }
+            main_cards.push(sg(&format!("got{k}"), call(&full, vec![])));
+        }
+        root.functions.insert(0, ("main".into(), func(&[], main_cards)));
+        root.functions.push(("abf".into(), tagged("abf")));
+        a.submodules.push(("b".into(), ab2));
+        root.submodules.push(("a".into(), a));
+        root.submodules.push(("ab".into(), ab));
+        root
+    }
+}
